@@ -18,7 +18,7 @@ CLAIMED = {
  "C04": ("7/C04", "all 2^64 sizes x the 8 combinations of the three Disable* switches: MarshalText->UnmarshalText, MarshalJSON->UnmarshalJSON (object, string and number forms through a token-level model of encoding/json), String, PrettyString and BytesString -> DefaultParser return the same size without error. Nesting in encoding/json containers (struct fields, slices, maps) is outside: reflection-driven standard-library code that hands MarshalJSON's bytes through."),
  "C05": ("7/C05", "all 256^36 and 256^45 inputs x 4 rule sets against an independent predicate, every other length 0..64 rejected, all 2^128 IDs: exact 8-4-4-4-12 layout, round trip in lower/upper case with/without URN, Version/Variant bit fields."),
  "C06": ("7/C06", "all pairs of valid pre-release strings up to 3+3 bytes (thorough 4+4) over every ASCII byte, numeric identifiers of 19-22 digits, outside the documented a01/a1 departure: DefaultComparePreRelease, Ver.Compare and Ver.Latest equal an identifier-wise section-11 oracle for arbitrary cores and build metadata; cores with full-range uint64 components; the specification's own example chain through CompareVersion/Compare."),
- "C07": ("7/C07", "all pairs of dates in years 0000-9999 (thorough: +-999,999,999): exactly one of Before/Equal/After and it matches chronological order; calendar lemmas (two independent ordinal closed forms agree, order key = ordinal order, successor = +1); Sub = days x 24h for all pairs within +-106751 days; Time()/FromTime()/Scan/Value glue incl. fixed zones -12h..+14h; Add(yy,mm,dd) with |yy|<=100, |mm|<=1200, |dd|<=40000 lands on the real day of the time.AddDate-normalised sum; AddDuration(k*24h+eps), |k|<=36500, lands exactly k days later. DaysBetween is outside the registered claim (VC with floating-point division undecided, see DESIGN.md)."),
+ "C07": ("7/C07", "all pairs of dates in years 0000-9999 (thorough: +-999,999,999): exactly one of Before/Equal/After and it matches chronological order; calendar lemmas (two independent ordinal closed forms agree, order key = ordinal order, successor = +1); Sub = days x 24h for all pairs within +-106751 days; Time()/FromTime()/Scan/Value glue incl. fixed zones -12h..+14h; Add(yy,mm,dd) with |yy|<=100, |mm|<=1200, |dd|<=40000 lands on the real day of the time.AddDate-normalised sum; AddDuration(k*24h+eps), |k|<=36500, lands exactly k days later; DaysBetween = ordinal difference for all pairs within +-106751 days and, together with Sub, against four concrete anchor dates (0001-01-01, 0000-03-01, 2000-02-29, 9999-12-31) in both directions; the float64 quotient in DaysBetween is cut out as a solver-discharged lemma (DESIGN.md 2.4)."),
  "C08": ("7/C08", "New[N] for all 12 numeric kinds over their full value range (all float32/float64 bit patterns incl. NaN/Inf) x 22 unit strings + arbitrary unit strings up to 3 bytes; text: every byte string up to length 5 (thorough 6) against the documented grammar, digit templates of 1-3, 18 and 20 digits (thorough: 4-6, 10, 19-21) with every separator kind; Bytes[N] for all 2^64 sizes x 12 kinds."),
  "C09": ("7/C09", "every byte string of length 0..10 (thorough: to 15 with symbolic MaxInputLength) x rule: accepted iff it names a real calendar day in the documented layouts, components as written, typed error and zero value otherwise."),
  "C10": ("7/C10", "every byte string of length 0..8 (thorough 11): accepted iff an independent split-enumerating evaluator accepts, same value, Valid <=> parse, case invariance under arbitrary letter-case flips (length <= 6, thorough 8)."),
@@ -31,7 +31,7 @@ CLAIMED = {
  "C17": ("7/C17", "symbolic receiver pre-state (any field values, which subsumes values decoded by earlier calls) and every byte string up to the per-type bound (uu 30..46, date 0..11, roman 0..7, sem 0..7, size text 0..5, date binary 0..9, Scan over five dynamic types): failed UnmarshalText/UnmarshalBinary/Scan leave the receiver bit-identical, input bytes unchanged, string and []byte instantiations agree on value and on the fields the error message is built from, parsed values do not alias the input buffer."),
  "C18": ("7/C18", "no panic (every runtime-panic site and explicit panic is a verification condition) for every byte string up to the per-package bound incl. non-ASCII and invalid UTF-8, under a fully symbolic rule word and MaxInputLength >= 0, through every text entry point of date, roman, sem, size (text rules) and uu, the comparator and Ver.Valid on arbitrary field strings up to 3+3 bytes (thorough 4+4); limit contract with symbolic MaxInputLength at lengths 1..n, default-1, default, default+1 and 10x default (long inputs with concrete valid filler). size with JSON rules is covered on templates only (C12); memory consumption is not modelled."),
  "C19": ("7/C19", "all 2^126 pairs of 63-bit draws: version 4 / variant 1; each of the 122 free bits can be 0 and 1 (thorough: adjacent pairs take all four values); lock discipline: the recorded lock/unlock/generator-use/package-variable events of RandomID, two threads, every interleaving: no two conflicting accesses unordered by happens-before (a racy schedule is confirmed with go test -race before it is reported)."),
- "C20": ("7/C20", "the six helpers (Marshal/Unmarshal x Text/Binary/JSON) on scripted marshaler/unmarshaler types (value and pointer receivers): one case with every combination of behaviour (right data, other data, error, error with data, panic) x error predicate (none, AnyError, Error(matching), Error(other), ErrorHasPrefix, ErrorHasSuffix, ErrorMatch matching / valid non-matching / invalid pattern) x constraint (none, OnlyMarshal, OnlyUnmarshal) x before/after hooks (nil, pass, fail, panic), symbolic data bytes: a failure is recorded iff an independent per-case oracle says the case is not satisfied, no panic escapes; a type lacking the interface gives one failure and FailNow; in a three-case list every failing applicable case is reported once and the other direction's case is ignored. testify's assertions are contract stubs (documented result; Errorf exactly on false). One recorded finding (known_findings.json): a valid non-matching ErrorMatch pattern is not reported; pinned by the repo's own Test_ErrorMatch_Fail, so not repaired."),
+ "C20": ("7/C20", "the six helpers (Marshal/Unmarshal x Text/Binary/JSON) on scripted marshaler/unmarshaler types (value and pointer receivers): one case with every combination of behaviour (right data, other data, error, error with data, panic, nil result for an expected empty text) x error predicate (none, AnyError, Error(matching), Error(other), ErrorHasPrefix, ErrorHasSuffix, ErrorMatch matching / valid non-matching / invalid pattern) x constraint (none, OnlyMarshal, OnlyUnmarshal) x before/after hooks (nil, pass, fail, panic), symbolic data bytes: a failure is recorded iff an independent per-case oracle says the case is not satisfied, no panic escapes; a type lacking the interface gives one failure and FailNow; in three-case lists through all six helpers, with every combination of direction constraints on the first two cases (a list may start with a case of the other direction), every failing applicable case is reported exactly once, other-direction cases are ignored, and a missing interface is still reported. testify's assertions are contract stubs (documented result; Errorf exactly on false). One recorded finding (known_findings.json): a valid non-matching ErrorMatch pattern is not reported; pinned by the repo's own Test_ErrorMatch_Fail, so not repaired."),
 }
 NA_REASON = "check not built yet (framework under construction; see DESIGN.md section 10)"
 
